@@ -143,7 +143,7 @@ func caseVariants(q string) []string {
 func TestC19(t *testing.T) {
 	env := kit.GetEnv()
 	rep := kit.NewReport("C19", env)
-	rep.Rule = "for every name of a 15-name alphabet (2 built-in, 2 forbidden, 5 ordinary incl. labels ending in letters of the suffix, sub-name and mixed-case/trailing-dot config spelling, IDN, 5 non-.myco/edge) x every subset of {resolve entry, friend (second friend name of a router that has another one)} holding it x every history of <= D mapping operations (save ip1/ip2, delete, on the name and on an unrelated name): every query = case variant x trailing dot x qtype in {A,AAAA,SVCB,HTTPS,ANY,TXT,MX,0,65535} x qclass in {IN,ANY,CH,NONE,0} x question count {0,1,2}, through the real ServeDNS and Lookup, compared with the reference precedence function; the same server is also queried before and after every single operation of the history, and for 9 neighbour names of the name (label plus/minus characters, sub- and super-names) which must give a name error; non-trivial = at least two sources hold the name or the query must be refused; states = distinct (config subset, mapping store content); distinct = distinct (state, query)"
+	rep.Rule = "for every name of a 15-name alphabet (2 built-in, 2 forbidden, 5 ordinary incl. labels ending in letters of the suffix, sub-name and mixed-case/trailing-dot config spelling, IDN, 5 non-.myco/edge) x every subset of {resolve entry, friend (second friend name of a router that has another one)} holding it x every history of <= D mapping operations (save ip1/ip2, delete, on the name and on an unrelated name): every query = case variant x trailing dot x qtype in {A,AAAA,SVCB,HTTPS,ANY,TXT,MX,0,65535} x qclass in {IN,ANY,CH,NONE,0} x question count {0,1,2}, through the real ServeDNS and Lookup, compared with the reference precedence function; the same server is also queried before and after every single operation of the history, and for 12 neighbour names of the name (label plus/minus characters, sub- and super-names, names that contain the suffix in the middle such as <label>.myco.myco and <label>.mycology.myco) which must give a name error; non-trivial = at least two sources hold the name or the query must be refused; states = distinct (config subset, mapping store content); distinct = distinct (state, query)"
 	rep.Assumptions = []string{
 		"friend names in the configuration are lower case (the statement does not define matching of mixed-case friend names)",
 		"queries reach the server as parsed DNS messages (miekg/dns does the wire parsing)",
@@ -316,7 +316,7 @@ func TestC19(t *testing.T) {
 				// neighbours of the name hold nothing: name error, whatever the name itself holds.
 				if nc.myco && nc.cfgName != "" {
 					label := strings.TrimSuffix(nc.query, ".myco")
-					for _, nb := range []string{label + "c", label + "o", label + "my", label + "myco", label + ".m", label[:len(label)-1], "x" + label, "x." + label, label + ".x"} {
+					for _, nb := range []string{label + "c", label + "o", label + "my", label + "myco", label + ".m", label[:len(label)-1], "x" + label, "x." + label, label + ".x", label + ".myco", label + ".mycology", label + ".mycox.y"} {
 						nq := nb + ".myco"
 						known := nb == ""
 						for _, other := range names {
